@@ -177,6 +177,16 @@ func scteDescOp(d scte35.SegmentationDescriptor, o Val) {
 		if j >= 0 && j < len(m) {
 			m[j].SetUPIDType(scte35.SegUPIDType(o.L[2].U()))
 		}
+	case 22:
+		j := o.L[1].Int()
+		cs := d.Components()
+		if j >= 0 && j < len(cs) {
+			if o.L[2].L[0].Int() == 0 {
+				cs[j].SetComponentTag(byte(o.L[2].L[1].U()))
+			} else {
+				cs[j].SetPTSOffset(gots.PTS(o.L[2].L[1].U()))
+			}
+		}
 	}
 }
 
